@@ -1,8 +1,9 @@
-SPECIFICATION Spec
+INIT Init
+NEXT CovNext
 CONSTANTS
  DrainBug = TRUE
  LinkCode = TRUE
  DupPathBug = TRUE
  Ids <- QuickIds
-INVARIANTS PropHoldsButKnown KnownReproduced Ordered PassBound
+POSTCONDITION Report
 CHECK_DEADLOCK TRUE
